@@ -5,6 +5,7 @@ import (
 	"context"
 	"errors"
 	"fmt"
+	"io"
 	"sort"
 	"strings"
 
@@ -17,8 +18,8 @@ import (
 	"github.com/bufbuild/buf/private/bufpkg/bufplugin"
 	"github.com/bufbuild/buf/private/gen/data/datawkt"
 	"github.com/bufbuild/buf/private/pkg/slogext"
+	"github.com/bufbuild/buf/private/pkg/storage"
 	"github.com/bufbuild/buf/private/pkg/wasm"
-	"github.com/bufbuild/verif/simfs"
 	"google.golang.org/protobuf/reflect/protoreflect"
 )
 
@@ -132,13 +133,17 @@ func (m *bsim) moreOutputs(ctx context.Context, moduleSet bufmodule.ModuleSet, i
 	if err != nil {
 		return fmt.Errorf("format: %w", err)
 	}
-	snap, err := simfs.Snapshot(ctx, formatted)
-	if err != nil {
-		return fmt.Errorf("format: %w", err)
-	}
+	// `buf format` writes the formatted files to stdout in the order the formatted bucket walks them
 	var fm strings.Builder
-	for _, p := range simfs.SortedKeys(snap) {
-		fmt.Fprintf(&fm, "=== %s\n%s", p, snap[p])
+	if err := storage.WalkReadObjects(ctx, formatted, "", func(ro storage.ReadObject) error {
+		data, err := io.ReadAll(ro)
+		if err != nil {
+			return err
+		}
+		fmt.Fprintf(&fm, "=== %s\n%s", ro.Path(), data)
+		return nil
+	}); err != nil {
+		return fmt.Errorf("format: %w", err)
 	}
 	res.outputs["format"] = fm.String()
 	return nil
